@@ -66,6 +66,22 @@ def run(tier, replay_file=None):
                 ok = compare(R, case, get_df, "bptk.run_scenarios(df)", stats, whole_run=True)
             finally:
                 b.destroy()
+        if ok and n % 2 == 0:
+            # observation point 2b: the same model built through nested Module objects (fully qualified element names)
+            m6, *_ = sd_dsl.build(case["P"], case["rs"], "q%d" % n, spelling=n + 3, modules=True)
+            ok = compare(R, case, lambda el, k, t: m6.evaluate_equation(sd_dsl.PREFIX + el, t), "Model.evaluate_equation of a model built through Modules", stats)
+            if ok:
+                b = BPTK_Py.bptk()
+                try:
+                    b.register_model(m6, scenario_manager="smq", scenario={"base": {}})
+                    names = [sd_dsl.PREFIX + el for el in sd_dsl.ELEMENTS]
+                    df = b.run_scenarios(scenario_managers=["smq"], scenarios=["base"], equations=names, return_format="df")
+                    cols = {el: next((c for c in df.columns if c == sd_dsl.PREFIX + el or c.endswith("_" + sd_dsl.PREFIX + el)), None) for el in sd_dsl.ELEMENTS}
+                    ok = compare(R, case, lambda el, k, t: float(df[cols[el]].iloc[k]) if cols[el] is not None else "column missing: %s" % list(df.columns)[:4],
+                                 "bptk.run_scenarios(df) of a model built through Modules", stats, whole_run=True)
+                finally:
+                    b.destroy()
+            R.add("built_through_modules")
         if ok and n % 3 == 0:
             # observation point 3: Element.plot(return_df=True)
             m3, *_ = sd_dsl.build(case["P"], case["rs"], "p%d" % n, spelling=n + 2)
@@ -76,10 +92,10 @@ def run(tier, replay_file=None):
                     frames[el] = frames[el].plot(return_df=True)
                 return float(frames[el][el].iloc[k])
             compare(R, case, get_plot, "Element.plot(return_df=True)", stats, whole_run=True)
-        if ok and n + 1 < len(trajs) and trajs[n + 1]["P"] == case["P"] and trajs[n + 1]["rs"] != case["rs"]:
+        nxt = next((c for c in trajs[n + 1:] + trajs[:n] if c["P"] == case["P"] and c["rs"] != case["rs"]), None) if n % 4 == 0 else None
+        if ok and nxt is not None:
             # observation point 4: the SAME model object re-run under another run specification (what a scenario with
             # run specs does to its clone): run specs changed in place, cache reset, evaluated again
-            nxt = trajs[n + 1]
             from BPTK_Py.sdsimulation import SdSimulation
             ts = times(nxt["rs"])
             SdSimulation(model=m).change_runspecs(ts[0], ts[-1], float(fr(nxt["rs"]["dt"])))
